@@ -161,6 +161,8 @@ static const struct entry menu[][4] = {
     /* 3 */ { { "m.<=command,>error", 2, 'm', SEV(1, 1, 0, 0, 0, 1) }, { "core.>info", 4, 'c', SEV(0, 0, 0, 1, 1, 1) }, { 0, 0, 0, 0 } },
     /* 4 */ { { 0, 0, 0, 0 } },
     /* 5 */ { { "*.WARNING", 4, '*', SEV(0, 0, 0, 1, 0, 0) }, { "m.*", 1, 'm', SEV(1, 1, 1, 1, 1, 1) }, { 0, 0, 0, 0 } },
+    /* 6 */ { { "core.=debug", 1, 'c', SEV(1, 0, 0, 0, 0, 0) }, { 0, 0, 0, 0 } },
+    /* 7 */ { { "core.debug,command", 1, 'c', SEV(1, 1, 0, 0, 0, 0) }, { 0, 0, 0, 0 } },
 };
 
 static unsigned want_dests(unsigned section, char fac, unsigned sev)
@@ -259,6 +261,9 @@ void harness(void)
      * message is sent, so that the configuration work stays concrete for the symbolic execution;
      * the state after the start-up section alone is the query with VP_S1 == VP_S0 omitted (-DONE_LOAD) */
     load(VP_S0);
+#ifdef STOP_AFTER_LOAD
+    return;
+#endif
     r0 = referenced(VP_S0);
     for (i = 0; i < 3; i++)
         VP_ASSERT((dest_obj[i] != NULL) == ((r0 >> i) & 1) && closed[i] == 0, "a destination is open exactly when the section references it");
